@@ -67,6 +67,7 @@ func (rm *RpcMultiplexer) closeError(err error) {
 			delete(rm.handlers, id)
 		}
 	}
+	vEmit("mux.fail", rm, 0, len(rm.handlers), "")
 }
 
 func (rm *RpcMultiplexer) CallUnaryMethod(
@@ -79,6 +80,7 @@ func (rm *RpcMultiplexer) CallUnaryMethod(
 	if err := rm.readErrorIfDone(); err != nil {
 		return nil, err
 	}
+	vGate("mux.call.window", rm, 0)
 
 	streamId := atomic.AddUint64(&rm.streamCounter, 1)
 
@@ -140,6 +142,7 @@ func (rm *RpcMultiplexer) NewStreamReadWriter(
 	if err := rm.readErrorIfDone(); err != nil {
 		return 0, nil, nil, err
 	}
+	vGate("mux.call.window", rm, 0)
 
 	streamId := atomic.AddUint64(&rm.streamCounter, 1)
 
@@ -199,6 +202,7 @@ func (rm *RpcMultiplexer) handleResponse(rpc *goatorepo.Rpc) {
 	if !ok {
 		// TODO: getting log lines from here after cancelling streams
 		log.Error().Msgf("Mux: unhandled Rpc %d", rpc.GetId())
+		vEmit("mux.unknown", rm, rpc.GetId(), len(rm.handlers), "")
 		return
 	}
 	ch <- rpc
@@ -209,6 +213,7 @@ func (rm *RpcMultiplexer) registerHandler(id uint64, c chan *goatorepo.Rpc) {
 	defer rm.mutex.Unlock()
 
 	rm.handlers[id] = c
+	vEmit("mux.reg", rm, id, len(rm.handlers), "")
 }
 
 func (rm *RpcMultiplexer) unregisterHandler(id uint64) {
@@ -220,6 +225,7 @@ func (rm *RpcMultiplexer) unregisterHandler(id uint64) {
 	}
 
 	delete(rm.handlers, id)
+	vEmit("mux.unreg", rm, id, len(rm.handlers), "")
 }
 
 func (rm *RpcMultiplexer) readErrorIfDone() error {
